@@ -202,7 +202,7 @@ func c02Create(c *c02Case, r *core.Rec) {
 		cp := path.Clean(op.Path)
 		ok := false
 		if c.Kind == "create2" {
-			ok = cp == base+".par2" || (strings.HasPrefix(cp, base+".vol") && strings.HasSuffix(cp, ".par2") && !strings.Contains(cp[len(base):], "/"))
+			ok = cp == base+".par2" || (strings.HasPrefix(cp, base+".") && strings.HasSuffix(cp, ".par2") && !strings.Contains(cp[len(base):], "/"))
 		} else {
 			rest := strings.TrimPrefix(cp, base+".p")
 			ok = cp == base+".par" || (rest != cp && len(rest) >= 2 && strings.Trim(rest, "0123456789") == "")
